@@ -39,11 +39,16 @@ pub struct Gains {
     kd: f32,
     sp: f32,
 }
-pub const GAINS: [Gains; 4] = [
+pub const GAINS: [Gains; 8] = [
     Gains { kp: 1.0, ki: 0.0, kd: 0.0, sp: 0.0 },
     Gains { kp: 0.0, ki: 1.0, kd: 0.0, sp: 5.0 },
     Gains { kp: 0.0, ki: 0.0, kd: 1.0, sp: -3.0 },
     Gains { kp: 2.0, ki: 0.5, kd: 0.25, sp: 5.0 },
+    // thorough tier only: negative, large, tiny and non-dyadic gains
+    Gains { kp: -1.5, ki: -0.25, kd: 4.0, sp: -2.0 },
+    Gains { kp: 1000.0, ki: 0.001, kd: 100.0, sp: 1024.0 },
+    Gains { kp: 0.1, ki: 0.3, kd: 0.7, sp: 0.2 },
+    Gains { kp: 0.0, ki: 0.0, kd: 0.0, sp: 7.0 },
 ];
 
 /// Textbook PID: memory is (previous error, its time, running trapezoid integral).
@@ -334,7 +339,9 @@ pub fn run(ctx: &Ctx) -> Vec<Eng> {
         "all histories of exactly `depth` events over {P(dt,v): dt in {0.5,1,2}s, v in {0,1,-2}} + {N,E1,E2} x 4 gain/setpoint sets; after every present sample get() must equal the textbook PID (bit-exact: every intermediate is dyadic) stamped with the input time, update() Ok / the input's error; metamorphic: timestamps shifted by -1e15, +7, +1e17 ns (bit-identical), setpoint and samples scaled by 2^-3 and 2^4 (exact scaling); differential: the controller composed from the crate's own primitive streams; non-trivial = a present sample with history behind it at depth >= 3",
         &format!("depth {} => 12^{} histories x 4 gain sets", depth, depth),
     );
-    for gi in 0..4 {
+    let ng = if ctx.thorough { 8 } else { 4 };
+    for gi in 0..ng {
+        let depth = if gi >= 4 { depth - 1 } else { depth };
         par_seqs(&mut e1, syms.len(), depth, budget, |seq, e| {
             let h: Vec<Ev> = seq.iter().map(|&s| syms[s]).collect();
             let a = check_history(gi, &h, e, &Opts { meta: true, compose: true });
@@ -349,7 +356,8 @@ pub fn run(ctx: &Ctx) -> Vec<Eng> {
         "same, over the broad alphabet {P(dt,v): dt in {1us,1ms,0.3s,1h}, v in {0.1,-7.3,1000}} + {N,E1}: f64 reference with a running forward-error bound (8x) where intermediates are not exactly representable; shift invariance stays bit-exact",
         &format!("depth {} => 14^{} histories x 4 gain sets", bdepth, bdepth),
     );
-    for gi in 0..4 {
+    for gi in 0..ng {
+        let bdepth = if gi >= 4 { bdepth - 1 } else { bdepth };
         par_seqs(&mut e2, bs.len(), bdepth, budget, |seq, e| {
             let h: Vec<Ev> = seq.iter().map(|&s| bs[s]).collect();
             let a = check_history(gi, &h, e, &Opts { meta: true, compose: true });
